@@ -410,6 +410,51 @@ def _errors(h, w):
     return out
 
 
+@unit("C06", "unit_predictions", fns=[f"{BEM}.get_unit_predictions"])
+def unit_predictions(h):
+    """the unit-level column `pred_margin` that get_aggregate_predictions sums and the state the interval functions are
+    centred on (weighted_yz_test_pred / weighted_z_test_pred) are assumed to be ONE array in the aggregate units above
+    (BootWorld): this is the contract of get_unit_predictions that discharges it -- on both paths (bootstrap already run /
+    run now) the REAL function returns exactly the model's state, entry by entry"""
+    w = BootWorld(h)
+    t = w.t
+    u = t.root.u
+    ran = h.bool("ran_bootstrap")
+    fresh_yz = z3.Function("weighted_yz_test_pred_of_this_run", z3.IntSort(), z3.RealSort())(u)
+    fresh_z = z3.Function("weighted_z_test_pred_of_this_run", z3.IntSort(), z3.RealSort())(u)
+    calls = []
+
+    def cbe_contract(interp, self_, reporting_units, nonreporting_units, unexpected_units):
+        # post-state of compute_bootstrap_errors (unit bootstrap_tail.ranges): the two prediction arrays, one entry per
+        # outstanding unit, and the flag
+        calls.append((reporting_units, nonreporting_units, unexpected_units))
+        self_.attrs["weighted_yz_test_pred"] = V(fresh_yz, (t.nonrep.axis, ONE))
+        self_.attrs["weighted_z_test_pred"] = V(fresh_z, (t.nonrep.axis, ONE))
+        self_.attrs["ran_bootstrap"] = True
+        return None
+
+    h.contracts[f"{BEM}.compute_bootstrap_errors"] = cbe_contract
+    self = w.model(ran_bootstrap=ran)
+    rp = lambda ev: {"target": "verif_replays:bootstrap_unit_predictions_replay", "args": [], "check": "result['exc'] is None and result['ok']"}  # noqa: E731
+    h.default_replay = rp
+    kind, res = h.call_method(self, "get_unit_predictions", t.rep, t.nonrep, "margin", unexpected_units=t.third)
+    if kind == "raise":
+        return h.fail("no_raise", f"raised {res}", replay=rp)
+    h.ensures("two_arrays", isinstance(res, tuple) and len(res) == 2 and all(isinstance(x, V) for x in res), replay=rp)
+    pm, pz = res
+    rows = z3.And(*t.nonrep.axis.facts())
+    st_yz, st_z = self.attrs["weighted_yz_test_pred"], self.attrs["weighted_z_test_pred"]
+    from pyvc.values import same_axis
+
+    h.ensures("one_entry_per_outstanding_unit", len(pm.axes) >= 1 and same_axis(pm.axes[0], t.nonrep.axis) and len(pz.axes) >= 1 and same_axis(pz.axes[0], t.nonrep.axis), replay=rp)
+    h.ensures("unit_margin_is_the_state_the_aggregate_functions_use", z3.Implies(rows, pm.t == st_yz.t), replay=rp)
+    h.ensures("unit_turnout_is_the_state_the_aggregate_functions_use", z3.Implies(rows, pz.t == st_z.t), replay=rp)
+    h.ensures("no_missing_values_introduced", pm.nan is None and pz.nan is None, replay=rp)
+    h.ensures("bootstrap_is_run_exactly_when_it_has_not_been", z3.Implies(z3.BoolVal(bool(calls)), z3.Not(ran.t if isinstance(ran, V) else ran)) if calls else (ran.t if isinstance(ran, V) else ran), replay=rp)
+    if calls:
+        h.ensures("bootstrap_is_run_on_the_three_frames_of_this_call", calls[0][0] is t.rep and calls[0][1] is t.nonrep and calls[0][2] is t.third, replay=rp)
+
+
 @unit("C06", "unit_intervals", fns=[f"{BEM}.get_unit_prediction_intervals"])
 def unit_intervals(h):
     w = BootWorld(h)
